@@ -500,6 +500,10 @@ def analyse(rep, prog, name, full, also=()):
 def run(prog, rep, tier):
     analyse(rep, prog, "dag_avg_deg", False)
     analyse(rep, prog, "dag_full", True)
+    # every call builds its graph from fresh arrays: a triangular mask or weight matrix kept between calls (a memoised helper) and then written in place
+    # makes the second graph of the same size a product of two draws
+    from .common import inputs_intact
+    inputs_intact(rep, prog, ["sempler.generators.dag_avg_deg", "sempler.generators.dag_full"], rule="FRESH")
     rep.require_count("PERM", 10)
     rep.require_count("TRIU", 2)
     rep.require_count("WEIGHTS", 2)
